@@ -140,6 +140,26 @@ def occurrences(aset, read):
     return occ
 
 
+def genuine(aset, read, res):
+    """first sentence of C08 = C01 for matches that come out of the index: coordinates, anchoring, tolerance, exact error count"""
+    probs = []
+    n = len(read)
+    ru = read.upper()
+    if res is not None:
+        i, rs, re, e, sc = res
+        a = aset["adapters"][i]
+        k = k_of(a["seq"], a["rate"])
+        if not (0 <= rs <= re <= n) or (aset["prefix"] and rs != 0) or (not aset["prefix"] and re != n):
+            probs.append("coordinates outside the read or not anchored")
+        else:
+            d = dist(a, ru[rs:re])
+            if d is None or d > k:
+                probs.append("the removed affix is not within the adapter's tolerance")
+            elif d != e:
+                probs.append("reported errors are not the exact distance")
+    return probs
+
+
 def oracle(aset, read, res, one_by_one, shuffled):
     """res, one_by_one, shuffled: match tuples (rank, rstart, rstop, errors, score) or None; -> list of problems"""
     probs = []
